@@ -128,13 +128,17 @@ def _mk(shape, template, tier="thorough"):
 def shards(tier, seed):
     if tier == "quick":
         return [x for s, t in QUICK for x in _mk(s, t, tier)]
-    core_t = ["idx", "barekey", "slice", "idx_key", "idx_idx", "key_p", "hslice", "s_eq_x", "s_gt_3", "s_le_i", "s_sw_a",
+    core_t = ["idx", "barekey", "slice", "idx_key", "idx_idx", "key_p", "hslice", "s_eq_x", "s_gt_3", "s_sw_a",
               "s_badre", "a_gt_2", "a_desc", "kw_max", "kw_maxp", "kw_unique", "kw_distinct", "kw_haschild", "kw_parent_i",
-              "kw_idx_parent_j", "kw_name", "star", "star_idx", "deep", "deep_key", "deep_idx", "coll_add", "coll_sub",
-              "coll_and"]
+              "kw_idx_parent_j", "kw_name", "star", "star_idx", "deep", "deep_key", "deep_idx"]
     core_s = ["L3", "L0", "ML3", "LNULL", "LMIX", "AOH3", "AOHN", "MM", "MINT", "SET", "LFLT"]
+    scalar_lists = ["L3", "L2", "L1", "L0", "ML3", "ML4", "ML0", "LNULL", "LSTR", "LFLT", "LTXT"]
+    symbolic_term = ("s_le_i", "s_eq_i", "a_ge_i")      # a symbolic search *term* is realised per value: scalar lists only
+    collectors = ("coll_add", "coll_sub", "coll_and")    # the property limits collectors to operands selecting scalars
     seen, out = set(), []
     pairs = [(s, t) for s in docs.SHAPES for t in core_t] + [(s, t) for s in core_s for t in TEMPLATES] + list(QUICK)
+    pairs += [(s, t) for s in scalar_lists for t in symbolic_term + collectors]
+    pairs = [(s, t) for (s, t) in pairs if (t not in symbolic_term and t not in collectors) or s in scalar_lists]
     for s, t in pairs:
         if (s, t) in seen:
             continue
